@@ -801,6 +801,37 @@ def run_evict_undeletable(root, tag, compiler):
         sc.stop(); shutil.rmtree(d, ignore_errors=True)
     return {'requests': reqs, 'entries_made_undeletable': len(entries), 'fails': fails[:2], 'samples': [' ; '.join(trace)[:600]]}
 
+# ------------------------------------------------------------------------------------------------ the client's umask
+def run_client_umask(root, tag, compiler):
+    """the server is started under umask 022; a client with umask 077 compiles (miss) and compiles again (hit): the object must get the mode the
+    same command gives when run directly under the client's umask"""
+    d = os.path.join(root, 'umask'); shutil.rmtree(d, ignore_errors=True); w = os.path.join(d, 'w'); os.makedirs(w)
+    fails = []; trace = []; reqs = 0
+    sc = Sc(os.path.join(d, 'sc'), tag + 'um')
+    old = os.umask(0o022)
+    try:
+        sc.start(); trace.append('server started under umask 022')
+        open(os.path.join(w, 'u.c'), 'w').write('int u(void) { return 7; }\n')
+        argv = [compiler, '-c', 'u.c', '-o', 'u.o']
+        for step in ('miss', 'hit'):
+            for f in ('u.o',):
+                try: os.remove(os.path.join(w, f))
+                except OSError: pass
+            r = subprocess.run([sc.bin] + argv, cwd=w, env=sc.env, capture_output=True, timeout=120, preexec_fn=lambda: os.umask(0o077)); reqs += 1
+            got = file_state(os.path.join(w, 'u.o'))
+            os.remove(os.path.join(w, 'u.o')) if got else None
+            dr = subprocess.run(argv, cwd=w, capture_output=True, preexec_fn=lambda: os.umask(0o077))
+            want = file_state(os.path.join(w, 'u.o'))
+            line = f'client umask 077 ({step}): {" ".join(argv)} -> rc={r.returncode} mode {got and oct(got[1])}; direct under umask 077: rc={dr.returncode} mode {want and oct(want[1])}'
+            trace.append(line)
+            if got and want and got[0] == want[0] and got[1] != want[1]:
+                fails.append({'kind': 'output_mode_follows_server_umask', 'detail': f'client umask 077, server umask 022 ({step}): object created {got[1]:o}, the direct compile creates {want[1]:o}', 'ops': list(trace)})
+            elif (got is None) != (want is None) or (got and want and got[0] != want[0]) or r.returncode != dr.returncode:
+                fails.append({'kind': 'differs_from_direct', 'detail': line, 'ops': list(trace)})
+    finally:
+        os.umask(old); sc.stop(); shutil.rmtree(d, ignore_errors=True)
+    return {'requests': reqs, 'fails': fails[:1], 'samples': [' ; '.join(trace)[:400]]}
+
 # ------------------------------------------------------------------------------------------------ options whose place on the command line matters
 def run_option_order(root, tag, compiler):
     """`-x LANG` names the language of the input files that follow it; after the input it has no effect (the compilers warn).  F-C01-r."""
